@@ -359,6 +359,13 @@ func c16(c *Ctx) {
 		}
 	}
 
+	// "No call panics": a position that may be −1 (slices.Index and friends: "not found") is not used as an index or bound
+	// without that case being excluded — an Unregister that finds its registration already handed over must be a no-op.
+	defer func() {
+		bad := unguardedIndexResults(gx)
+		c.Check(len(bad) == 0, "R4", "global|package|a 'position or -1' result is tested before it indexes", at(gx.M, gx.Pkg.Syntax[0].Pos()), "no unguarded use",
+			"a search result that is -1 when nothing is found is used as an index or slice bound: "+joinStr(bad)+" — the call panics when the element is not (or no longer) there, e.g. an Unregister racing with the hand-over to the delegate")
+	}()
 	// Publishing the delegate to readers that do not take the lock (an atomic Store into a field of the placeholder holder) is
 	// only safe once every placeholder has been handed its delegate: a reader that sees the delegate early bypasses the
 	// placeholders, and what it passes on (a not yet delegated observable, a callback) reaches the SDK unresolved.
